@@ -10,14 +10,15 @@
 EXTENDS Naturals, Sequences, FiniteSets, TLC
 CONSTANTS Chans,      \* channel names, e.g. "1a" = attribute a of instance 1
           ChanSeqs,   \* the channel lists a subscriber may listen to
-          Subs, MaxEv, QMaxes
+          Subs, MaxEv, QMaxes,
+          AbandonSubs  \* the subscribers that may give up waiting inside their block (a subset of Subs, to bound the graph)
 Filters == {"all", "even"}
 VARIABLES sub,      \* [Subs -> subscriber record]
           order,    \* [Chans -> Seq(Subs)]  subscription order per channel (delivery order)
           nextEv, obs
 core == <<sub, order, nextEv>>
 vars == <<core, obs>>
-Off == [st |-> "off", kind |-> "stream", chs |-> <<>>, flt |-> "all", qmax |-> 0, queue |-> <<>>, waiting |-> FALSE, got |-> <<>>]
+Off == [st |-> "off", kind |-> "stream", chs |-> <<>>, flt |-> "all", qmax |-> 0, queue |-> <<>>, waiting |-> FALSE, dead |-> FALSE, got |-> <<>>]
 Init == sub = [s \in Subs |-> Off] /\ order = [a \in Chans |-> <<>>] /\ nextEv = 1 /\ obs = [a |-> "init"]
 Pass(f, n) == f = "all" \/ n % 2 = 0
 Range(q) == {q[i] : i \in DOMAIN q}
@@ -58,24 +59,31 @@ Dispatch(ch, wrong) ==
 RECURSIVE FirstPass(_, _)
 FirstPass(q, f) == IF q = <<>> THEN 0 ELSE IF Pass(f, Head(q)[1]) THEN 1 ELSE (LET r == FirstPass(Tail(q), f) IN IF r = 0 THEN 0 ELSE r + 1)
 Consume(s) ==
-  /\ sub[s].st = "on" /\ sub[s].kind = "stream" /\ ~sub[s].waiting
+  /\ sub[s].st = "on" /\ sub[s].kind = "stream" /\ ~sub[s].waiting /\ ~sub[s].dead
   /\ LET r == sub[s] i == FirstPass(r.queue, r.flt) IN
      IF i = 0 THEN /\ sub' = [sub EXCEPT ![s] = [r EXCEPT !.queue = <<>>, !.waiting = TRUE]]
                    /\ obs' = [a |-> "Consume", s |-> s, r |-> "blocked"]
      ELSE /\ sub' = [sub EXCEPT ![s] = [r EXCEPT !.queue = SubSeq(@, i + 1, Len(@)), !.got = Append(@, r.queue[i])]]
           /\ obs' = [a |-> "Consume", s |-> s, r |-> "got", n |-> r.queue[i][1]]
   /\ UNCHANGED <<order, nextEv>>
+\* the consumer gives up waiting for the next item (a timeout around __anext__) but stays inside its stream block: its iterator is
+\* finished, the subscription and the queue remain until the block is left; dispatch must go on treating it like any slow subscriber
+Abandon(s) ==
+  /\ s \in AbandonSubs /\ sub[s].st = "on" /\ sub[s].kind = "stream" /\ sub[s].waiting
+  /\ sub' = [sub EXCEPT ![s] = [@ EXCEPT !.waiting = FALSE, !.dead = TRUE]]
+  /\ UNCHANGED <<order, nextEv>>
+  /\ obs' = [a |-> "Abandon", s |-> s]
 \* the subscriber leaves its stream block (or its wait_event call is cancelled), whatever it was doing
 Leave(s) ==
   /\ sub[s].st = "on"
-  /\ sub' = [sub EXCEPT ![s] = [@ EXCEPT !.st = "done", !.waiting = FALSE, !.queue = <<>>]]
+  /\ sub' = [sub EXCEPT ![s] = [@ EXCEPT !.st = "done", !.waiting = FALSE, !.dead = FALSE, !.queue = <<>>]]
   /\ order' = Unsub(order, s)
   /\ UNCHANGED nextEv
   /\ obs' = [a |-> "Leave", s |-> s]
 Next == \/ \E s \in Subs, chs \in ChanSeqs, f \in Filters, qm \in QMaxes : Subscribe(s, chs, f, qm)
         \/ \E s \in Subs, chs \in ChanSeqs, f \in Filters : WaitEvent(s, chs, f)
         \/ \E ch \in Chans, w \in BOOLEAN : Dispatch(ch, w)
-        \/ \E s \in Subs : Consume(s) \/ Leave(s)
+        \/ \E s \in Subs : Consume(s) \/ Leave(s) \/ Abandon(s)
 (* ------------------------------------------------ properties of the design ------------------------------------------- *)
 \* C10: what a subscriber has yielded is in dispatch order without duplicates, passes its filter and comes from its channels (C11)
 InOrder == \A s \in Subs : \A i \in 1..(Len(sub[s].got) - 1) : sub[s].got[i][1] < sub[s].got[i + 1][1]
